@@ -15,6 +15,8 @@ pub fn run(em: &mut Emit, thorough: bool, seed: u64) {
     let mut vals = value_set();
     vals.push(Value::Timestamp(chrono::DateTime::<chrono::Utc>::MAX_UTC.fixed_offset()));
     vals.push(Value::Timestamp(chrono::DateTime::<chrono::Utc>::MIN_UTC.fixed_offset()));
+    vals.push(Value::Timestamp(chrono::DateTime::<chrono::Utc>::MIN_UTC.with_timezone(&chrono::FixedOffset::east_opt(-3600).unwrap())));
+    vals.push(Value::Timestamp(chrono::DateTime::<chrono::Utc>::MAX_UTC.with_timezone(&chrono::FixedOffset::east_opt(86399).unwrap())));
     vals.push(Value::Duration(chrono::Duration::nanoseconds(i64::MAX)));
     vals.push(Value::Duration(chrono::Duration::nanoseconds(i64::MIN + 1)));
     vals.push(Value::Duration(chrono::Duration::seconds(1)));
@@ -80,6 +82,37 @@ pub fn run(em: &mut Emit, thorough: bool, seed: u64) {
                       // a value of the wrong kind for the function: the error has to describe it
                       "s.getHours()", "getFullYear(s)", "[s, s].startsWith(t)", "t.endsWith([s])", "{s: s}.contains(1).size()", "bytes(s).getDate()"] {
                 emit_program(em, p, &spec, "nt=1;kind=c02-text-long");
+            }
+        }
+    }
+    // every built-in that takes a timestamp or a duration, over the limit instants seen from
+    // every kind of offset (the local date then lies beyond chrono's limit dates) and the limit
+    // durations, in both call styles and inside a macro
+    {
+        let at = |t: chrono::DateTime<chrono::Utc>, o: i32| Value::Timestamp(t.with_timezone(&chrono::FixedOffset::east_opt(o).unwrap()));
+        let (tmin, tmax) = (chrono::DateTime::<chrono::Utc>::MIN_UTC, chrono::DateTime::<chrono::Utc>::MAX_UTC);
+        let mut ts = Vec::new();
+        for o in [-86399, -3600, -1, 0, 1, 3600, 86399] {
+            ts.push(at(tmin, o));
+            ts.push(at(tmax, o));
+            ts.push(at(tmin + chrono::Duration::days(1), o));
+            ts.push(at(tmax - chrono::Duration::days(1), o));
+        }
+        let ds = [chrono::Duration::MAX, chrono::Duration::MIN, chrono::Duration::nanoseconds(i64::MAX), chrono::Duration::nanoseconds(i64::MIN + 1),
+                  chrono::Duration::nanoseconds(1), chrono::Duration::days(1), chrono::Duration::days(-1)];
+        for (i, t) in ts.iter().enumerate() {
+            let d = ds[i % ds.len()];
+            let spec = CtxSpec { vars: vec![("t".into(), t.clone()), ("d".into(), Value::Duration(d)), ("u".into(), ts[(i * 5 + 3) % ts.len()].clone())], funs: vec![] };
+            for a in ["getFullYear", "getMonth", "getDayOfYear", "getDayOfMonth", "getDate", "getDayOfWeek", "getHours", "getMinutes", "getSeconds", "getMilliseconds"] {
+                emit_program(em, &format!("t.{}()", a), &spec, "nt=1;kind=c02-time-limits");
+                emit_program(em, &format!("{}(t)", a), &spec, "nt=1;kind=c02-time-limits");
+                emit_program(em, &format!("[t, u].map(x, x.{}())", a), &spec, "nt=1;kind=c02-time-limits");
+                emit_program(em, &format!("d.{}()", a), &spec, "nt=1;kind=c02-time-limits");
+            }
+            for p in ["string(t)", "timestamp(string(t))", "t + d", "t - d", "d + t", "t - u", "u - t", "t < u", "t == u", "string(d)", "duration(string(d))",
+                      "d + d", "d - d", "timestamp(t)", "duration(d)", "int(t)", "max(t, u)", "min([t, u])", "[t, u, d].size()", "{'t': t}.t.getDayOfYear()",
+                      "string(t - d)", "string(t + d)", "(t + d).getDayOfYear()", "(t - d).getDate()"] {
+                emit_program(em, p, &spec, "nt=1;kind=c02-time-limits");
             }
         }
     }
